@@ -7,6 +7,7 @@
 package main
 
 import (
+	"bytes"
 	"encoding/hex"
 	"fmt"
 	"io"
@@ -19,6 +20,7 @@ import (
 	"github.com/iDigitalFlame/xmt/c2"
 	"github.com/iDigitalFlame/xmt/c2/task"
 	"github.com/iDigitalFlame/xmt/com"
+	"github.com/iDigitalFlame/xmt/com/limits"
 	"github.com/iDigitalFlame/xmt/data"
 	"github.com/iDigitalFlame/xmt/device"
 	"github.com/iDigitalFlame/xmt/device/local"
@@ -641,6 +643,30 @@ func runHistory(ids []ID, ops []*op, class string) {
 					}
 				}
 			}
+			// (3b) inside a multi-device batch the sub-packet of an unregistered device is answered with a request naming it
+			if o.kind == oTalk && o.p.kind == kMultiDev && answer == "reply" {
+				for _, sp := range o.p.subs {
+					_, reg := prev[sp.dev]
+					if sp.dev.Empty() || reg || sp.dev == top || sp.pid == c2.SvHello {
+						continue
+					}
+					hel, got := false, false
+					for _, x := range o.p.subs {
+						if x.dev == sp.dev && x.pid == c2.SvHello {
+							hel = true
+						}
+					}
+					for _, lf := range leafs {
+						if lf.dev == sp.dev && lf.pid == c2.SvRegister {
+							got = true
+						}
+					}
+					if !hel && !got {
+						fail("a sub-packet naming an unregistered device in a multi-device batch was not answered with a re-registration request", "multidev-unknown-sub-no-register-request", caseDesc())
+						break
+					}
+				}
+			}
 			// (4) outbound packets are handed only to the connection that serves their device
 			for _, lf := range leafs {
 				if !idIn(lf.dev, named) && !u32In(lf.dev.Hash(), tags) {
@@ -1134,6 +1160,194 @@ func runChan(ids []ID, ops []*cop, class string) {
 	out.Add(nm.wrap(fmt.Sprintf("CChan %s %s", vh.List(opTerms), vh.List(obsTerms))), class, maxRouted >= 1 && nPkt >= 2, caseDescShort(ids, descOps))
 }
 
+// ---------------------------------------------------------------- a client behind A's Proxy
+
+const (
+	fHello = iota
+	fSend
+	fPump
+)
+
+type fop struct {
+	kind    int
+	d       ID
+	pid     uint8
+	job     uint16
+	payload int
+}
+
+func (o *fop) desc() map[string]interface{} {
+	switch o.kind {
+	case fHello:
+		return map[string]interface{}{"op": "hello of dev at A's Proxy (Proxy.talk)", "dev": hx(o.d), "job": int(o.job)}
+	case fSend:
+		return map[string]interface{}{"op": "dev hands A's Proxy a packet (Proxy.talk -> notify -> parent.write)", "dev": hx(o.d), "id": int(o.pid), "job": int(o.job), "payload_bytes": o.payload}
+	}
+	return map[string]interface{}{"op": "A sends its queue: Session.next(false) -> wire -> Listener.talk, until the queue is empty"}
+}
+
+func wire(n *com.Packet) *com.Packet {
+	var (
+		b bytes.Buffer
+		o com.Packet
+	)
+	if err := n.Marshal(&b); err != nil {
+		panic("marshal: " + err.Error())
+	}
+	if err := o.Unmarshal(&b); err != nil {
+		panic("unmarshal: " + err.Error())
+	}
+	return &o
+}
+
+func runFwd(a ID, ids []ID, ops []*fop, class string) {
+	srv, l := c2.VerifC15NewServer(keys)
+	defer srv.Close()
+	var (
+		mu  sync.Mutex
+		evs []event
+	)
+	srv.New = func(s *c2.Session) {
+		mu.Lock()
+		evs = append(evs, event{kind: 0, sid: s.ID})
+		mu.Unlock()
+		s.Receive = func(s *c2.Session, n *com.Packet) {
+			mu.Lock()
+			evs = append(evs, event{kind: 1, sid: s.ID, dev: n.Device, job: n.Job})
+			mu.Unlock()
+		}
+	}
+	all := append([]ID{a}, ids...)
+	nm := newNamer(all)
+	caseDesc := func(d []interface{}) map[string]interface{} {
+		h := make([]string, len(ids))
+		for i, x := range ids {
+			h[i] = hx(x)
+		}
+		return map[string]interface{}{"proxy_host_A": hx(a), "ids": h, "limits.Frag": limits.Frag, "forwarding_history": append([]interface{}(nil), d...), "failing_step": len(d)}
+	}
+	// A registers directly
+	if _, _, _, err := c2.VerifC15Talk(l, "0", c2.VerifC15Hello(a, 1, machine)); err != nil {
+		panic("registering A: " + err.Error())
+	}
+	c2.VerifC15Barrier(srv)
+	mu.Lock()
+	evs = nil
+	mu.Unlock()
+	p, ps := c2.VerifC15NewProxy(a)
+	var (
+		opTerms, obsTerms []string
+		descOps           []interface{}
+		sent              = map[uint16]ID{} // job -> device that sent it through the Proxy (accepted)
+		handled           = map[uint16]bool{}
+		frags, bigs       int
+	)
+	for _, o := range ops {
+		descOps = append(descOps, o.desc())
+		var ans string
+		func() {
+			defer func() {
+				if x := recover(); x != nil {
+					ans = "(AErr 99)"
+					fail(fmt.Sprintf("panic in forwarding step %d: %v", len(descOps), x), "panic", caseDesc(descOps))
+				}
+			}()
+			ptalk := func(n *com.Packet) bool {
+				next, hasHost, _, err := c2.VerifC15ProxyTalk(p, "0", n)
+				switch {
+				case err != nil:
+					ans = fmt.Sprintf("(AErr %d)", errClass(err))
+				case next != nil && next.ID == c2.SvRegister && !hasHost:
+					ans = "(ARegister " + nm.id(next.Device) + ")"
+				default:
+					ans = "(ABool true)"
+					return true
+				}
+				return false
+			}
+			switch o.kind {
+			case fHello:
+				ptalk(c2.VerifC15Hello(o.d, o.job, machine))
+				opTerms = append(opTerms, fmt.Sprintf("FHello %s %d", nm.id(o.d), o.job))
+			case fSend:
+				n := &com.Packet{ID: o.pid, Job: o.job, Device: o.d}
+				if o.payload > 0 {
+					n.Write(make([]byte, o.payload))
+				}
+				size := n.Size()
+				if size > limits.Frag {
+					bigs++
+				}
+				if ptalk(n) {
+					sent[o.job] = o.d
+				}
+				opTerms = append(opTerms, fmt.Sprintf("FSend %s %d %d %d", nm.id(o.d), o.pid, o.job, size))
+			default:
+				for i := 0; c2.VerifC15ClientPending(ps) && i < 1000; i++ {
+					n := c2.VerifC15ClientNext(ps)
+					if n == nil {
+						break
+					}
+					c2.VerifC15Talk(l, "0", wire(n)) // the reply is not fed back to A
+				}
+				ans = "(ABool true)"
+				opTerms = append(opTerms, "FPump")
+			}
+		}()
+		if !c2.VerifC15Barrier(srv) {
+			panic("barrier timeout")
+		}
+		mu.Lock()
+		got := evs
+		evs = nil
+		mu.Unlock()
+		es := make([]string, len(got))
+		for i, e := range got {
+			if e.kind == 0 {
+				es[i] = "VNew " + nm.id(e.sid)
+			} else {
+				es[i] = fmt.Sprintf("VRecv %s %s %d", nm.id(e.sid), nm.id(e.dev), e.job)
+			}
+		}
+		q := c2.VerifC15ClientQueue(ps)
+		qs := make([]string, len(q))
+		for i, e := range q {
+			qs[i] = fmt.Sprintf("(WP %s %d %d %d %d)", nm.id(e.Dev), e.ID, e.Job, e.Pos, e.Len)
+			if e.Len > 0 {
+				frags++
+			}
+		}
+		obsTerms = append(obsTerms, fmt.Sprintf("FObs %s %s %s", ans, vh.List(es), vh.List(qs)))
+		// ---- oracle
+		// (1) what A queues for a proxied device names that device, whole or in fragments
+		for _, e := range q {
+			if d, ok := sent[e.Job]; ok && e.Dev != d {
+				key := "forward-relabelled"
+				if e.Len > 0 {
+					key = "forward-fragment-relabelled"
+				}
+				fail("a packet of proxied device B is queued by the proxy host A under another device ID", key, caseDesc(descOps))
+				break
+			}
+		}
+		// (2) the handler fires only in the session of the device the packet named at the Proxy
+		for _, e := range got {
+			if e.kind != 1 {
+				continue
+			}
+			handled[e.job] = true
+			d, ok := sent[e.job]
+			switch {
+			case e.sid != e.dev:
+				fail("a forwarded packet was delivered to the handler of another device's session", "forward-delivered-to-other-session", caseDesc(descOps))
+			case ok && e.sid != d:
+				fail("a packet of proxied device B forwarded by A was handled in the session of A (or another device), naming it", "forward-handled-in-other-session", caseDesc(descOps))
+			}
+		}
+	}
+	out.Add(nm.wrap(fmt.Sprintf("CFwd %d %s %s %s", limits.Frag, nm.id(a), vh.List(opTerms), vh.List(obsTerms))), class, frags >= 2 && len(handled) >= 1, caseDescShort(all, descOps))
+}
+
 // ---------------------------------------------------------------- generators
 
 func randID() ID {
@@ -1546,6 +1760,72 @@ func main() {
 			ops = append(ops, o)
 		}
 		runChan(pool, ops, "chan")
+	}
+	// ---- a client behind A's Proxy: small, just below / above limits.Frag, several fragments
+	{
+		F := limits.Frag
+		sizes := []int{0, 3, F - 100, F - 51, F - 50, F - 49, F - 10, F + 1, F + 4096, 2*F + 100}
+		snd := func(d ID, n int) *fop { return &fop{kind: fSend, d: d, pid: uint8(0xC0 + rng.Intn(16)), job: nextJob(), payload: n} }
+		a, b := pairs[0][0], pairs[0][1]
+		c, d := randID(), randID()
+		var ops []*fop
+		ops = append(ops, &fop{kind: fHello, d: c, job: nextJob()}, &fop{kind: fPump})
+		for _, n := range sizes {
+			ops = append(ops, snd(c, n), &fop{kind: fPump})
+		}
+		runFwd(a, []ID{c}, ops, "corpus-fwd")
+		// two clients, interleaved fragments, a sender that is not registered at the Proxy (its ID collides with A's), a second hello
+		runFwd(a, []ID{b, c, d}, []*fop{{kind: fHello, d: c, job: nextJob()}, {kind: fHello, d: d, job: nextJob()}, snd(c, F+1), snd(d, 2*F+100),
+			snd(b, F+1), snd(b, 5), {kind: fPump}, snd(randID(), 10), {kind: fHello, d: c, job: nextJob()}, snd(c, 7), snd(d, F-100), {kind: fPump}}, "corpus-fwd")
+		nFwd := 12
+		if thorough {
+			nFwd = 150
+		}
+		for i := 0; i < nFwd; i++ {
+			pool := genPool(pairs)
+			var np []ID
+			for _, x := range pool {
+				if !x.Empty() {
+					np = append(np, x)
+				}
+			}
+			host := np[0]
+			// a client whose ID collides with the host's is kept out: Proxy.talk queues the SAME hello packet twice,
+			// the second reference goes out empty, the Listener refuses an empty hello of a sender it treats as
+			// unregistered and drops the rest of that container (where containers end is not modelled)
+			var cl []ID
+			for _, x := range np {
+				if x == host || x.Hash() != host.Hash() {
+					cl = append(cl, x)
+				}
+			}
+			np = cl
+			jobCounter = 0
+			var ops []*fop
+			for j, m := 0, 1+rng.Intn(3); j < m; j++ {
+				ops = append(ops, &fop{kind: fHello, d: pick(np), job: nextJob()})
+			}
+			big := 0
+			for j, m := 0, 4+rng.Intn(10); j < m; j++ {
+				switch r := rng.Intn(10); {
+				case r < 1:
+					ops = append(ops, &fop{kind: fHello, d: pick(np), job: nextJob()})
+				case r < 7:
+					n := sizes[rng.Intn(len(sizes))]
+					if n > F-200 {
+						if big >= 4 {
+							n = rng.Intn(64)
+						}
+						big++
+					}
+					ops = append(ops, snd(pick(np), n))
+				default:
+					ops = append(ops, &fop{kind: fPump})
+				}
+			}
+			ops = append(ops, &fop{kind: fPump})
+			runFwd(host, np, ops, "fwd")
+		}
 	}
 	fs := map[string]int{}
 	for k, v := range failSeen {
